@@ -269,8 +269,10 @@ func JudgeCalls(model []core_domain.CodeDataStruct, u Unit, text string, skipped
 			for k, e := range want {
 				g := got[k]
 				if e.Creation {
-					if g.Type != "CreatorClass" || g.NodeName != e.Name || g.Position.StartLine != e.Line || g.Position.StartLinePosition != e.Col {
-						return fmt.Sprintf("%s: call #%d should be the creation of %s at %d:%d\nrecorded: %s\nwritten:  %s", where, k, e.Name, e.Line, e.Col, showGot(got), showWant(want))
+					// "each creation carries the created type": the place is not part of the statement (with explicit
+					// type arguments, `new <T> Foo()`, or a name on a later line the tool records where `new` stands)
+					if g.Type != "CreatorClass" || g.NodeName != e.Name {
+						return fmt.Sprintf("%s: call #%d should be the creation of %s (written at %d:%d)\nrecorded: %s\nwritten:  %s", where, k, e.Name, e.Line, e.Col, showGot(got), showWant(want))
 					}
 					continue
 				}
